@@ -1,4 +1,5 @@
 import Heathcliff.Proofs.C14S
+import Heathcliff.Proofs.C14T
 /-
   C14  Serialization round-trips every object exactly, sizes exact, across contexts.
 
@@ -237,5 +238,40 @@ theorem exCtNtt_hp0 : type_of% @HC.Codec.c14s_exCtNtt_hp0 := @HC.Codec.c14s_exCt
 
 /-- the hypotheses of `c14s_terms_format_ntt` hold on a concrete NTT-form seeded ciphertext with tables built by `NTTTables.new` -/
 theorem ex_ntt_instance : type_of% @HC.Codec.c14s_ex_ntt_instance := @HC.Codec.c14s_ex_ntt_instance
+
+/-! ### the validity predicate of the ciphertext codecs in plain terms (IFF), and the converse `valid ⇒ CtWF` (Proofs/C14T.lean) -/
+
+/-- well-formedness ⇒ validity (compact format; C14S) -/
+theorem ctC_valid_of_CtWF : type_of% @HC.Codec.c14s_ctC_valid := @HC.Codec.c14s_ctC_valid
+
+/-- COMPACT FORMAT, validity in plain terms (IFF): header words in range where the level's scheme puts them on the wire, the parms
+    id known to the context, polynomial count right for the seed flag, the seed 8 words or absent, every polynomial of the level's
+    shape with coefficients representable in `limit(q_j)` bytes (`c14t_CtWFw` = `c14s_CtWF` with the scale / correction-factor
+    bounds required only for CKKS / BGV levels) -/
+theorem ctC_valid_iff : type_of% @HC.Codec.c14t_ctC_valid_iff := @HC.Codec.c14t_ctC_valid_iff
+
+/-- SELECTED-TERMS FORMAT, validity in plain terms (IFF) -/
+theorem ctTermsC_valid_iff : type_of% @HC.Codec.c14t_ctTermsC_valid_iff := @HC.Codec.c14t_ctTermsC_valid_iff
+
+/-- `c14s_CtWF ⇔ c14t_CtWFw ∧ scale < 2^64 ∧ cf < 2^64` -/
+theorem CtWF_iff : type_of% @HC.Codec.c14t_CtWF_iff := @HC.Codec.c14t_CtWF_iff
+
+/-- THE CONVERSE on the image of the code (every Rust `Ciphertext` has `scale: f64`, `correction_factor: u64`): a valid ciphertext
+    whose two header fields are 64-bit words is well formed (`c14s_CtWF`) and its polynomial 0 fits -/
+theorem ctC_valid_imp_CtWF : type_of% @HC.Codec.c14t_ctC_valid_imp_CtWF := @HC.Codec.c14t_ctC_valid_imp_CtWF
+
+theorem ctTermsC_valid_imp_CtWF : type_of% @HC.Codec.c14t_ctTermsC_valid_imp_CtWF := @HC.Codec.c14t_ctTermsC_valid_imp_CtWF
+
+/-- `valid ⇔ c14s_CtWF ∧ polynomial 0 fits` for objects whose two header fields are words -/
+theorem ctC_valid_iff_CtWF : type_of% @HC.Codec.c14t_ctC_valid_iff_CtWF := @HC.Codec.c14t_ctC_valid_iff_CtWF
+
+/-- REFUTED naive converse `valid ⇒ c14s_CtWF` for the model's unbounded `Nat` fields (witness: one BFV level, scale field 2^64 —
+    BFV does not serialize the scale, so the codec's domain does not constrain it).  A finding about the model's domain, not the
+    library. -/
+theorem validImpCtWF_refuted : type_of% @HC.Codec.c14t_validImpCtWF_refuted := @HC.Codec.c14t_validImpCtWF_refuted
+
+/-- converses of the elementary lemmas: fixed-length sequences and the compact polynomial codec accept exactly what fits -/
+theorem repC_valid_iff : type_of% @HC.Codec.c14t_repC_valid_iff := @HC.Codec.c14t_repC_valid_iff
+theorem polyC_valid_iff : type_of% @HC.Codec.c14t_polyC_valid_iff := @HC.Codec.c14t_polyC_valid_iff
 
 end HC.C14
